@@ -76,12 +76,14 @@ def one(job):
 
 def explore(ctx, scale=1):
     rng = ctx.rng
-    n = ctx.n(16, 500) * scale
+    n = ctx.n(24, 600) * scale
     jobs = []
     for i in range(n):
-        pattern = ["random", "same-hosts", "same-cport"][i % 3]
+        pattern = ["random", "same-hosts", "same-cport", "same-server"][i % 4]
         ntls = rng.randrange(1, 5)
-        nquic = rng.randrange(0, 3) if pattern == "random" or rng.random() < 0.5 else 0
+        nquic = rng.randrange(0, 3) if pattern == "random" or rng.random() < 0.6 else 0
+        if pattern == "same-server" and i % 8 == 3:
+            ntls, nquic = rng.randrange(0, 2), rng.randrange(2, 4)
         if ntls + nquic < 2:
             ntls += 1
         jobs.append((rng.getrandbits(48), ntls, nquic, pattern))
@@ -108,7 +110,7 @@ def explore(ctx, scale=1):
 def run(ctx):
     ctx.rule = ("captures with 2–6 connections (TLS of random version/suite and QUIC v1) + unrelated TCP/UDP/non-IP frames, "
                 "merged by a random order-preserving interleaving, combined key log shuffled; endpoint patterns: random, "
-                "same two hosts with different client ports, same client ip:port towards different servers; IPv4/IPv6. "
+                "same two hosts with different client ports, same client ip:port towards different servers, different client hosts with the same client port towards one server (these patterns apply to TLS and QUIC connections alike); IPv4/IPv6. "
                 "For every connection the merged export is compared with the export of that connection alone and with the "
                 "sender's ground truth. non-trivial iff the merge switches between connections at least twice.")
     ctx.assumptions = ["QUIC connection IDs are globally unique random values (RFC 9000 §5.1); connections have distinct "
